@@ -101,7 +101,9 @@ StampLess(a, b) == a.st < b.st \/ (a.st = b.st /\ a.at < b.at)
 Eligible(i) ==
   CASE cfg.policy = "ANY" -> HeadOfFlow(i)
     [] cfg.policy = "SP"  -> HeadOfFlow(i) /\ \A j \in 1..Len(pool) : cfg.w[pool[j].f] <= cfg.w[pool[i].f]
-    [] cfg.policy \in {"WFQ", "VC"} -> \A j \in 1..Len(pool) : ~StampLess(pool[j], pool[i])
+    \* smallest stamp; on equal stamps the earlier arrival (the pool is kept in arrival order)
+    [] cfg.policy \in {"WFQ", "VC"} -> /\ \A j \in 1..Len(pool) : ~StampLess(pool[j], pool[i])
+                                       /\ \A j \in 1..(i - 1) : pool[j].st # pool[i].st
     [] OTHER -> FALSE
 
 \* policies without scan state
